@@ -113,7 +113,13 @@ type declSpec struct {
 	Sbu    bool       `json:"sbu"`
 	Ptr    bool       `json:"ptr"`
 	Custom *customCfg `json:"custom"`
+	// DefShare: Strings declarations naming the same key are given the very same default slice
+	// (as a user who reuses one variable for several defaults would)
+	DefShare string `json:"defshare"`
 }
+
+// sharedDefs holds the default slices shared between declarations of the current case
+var sharedDefs = map[string][]string{}
 
 type hookSpec struct {
 	K string `json:"k"`
@@ -155,6 +161,7 @@ type request struct {
 	Version *versionSpec `json:"version"`
 	Root    *cmdSpec     `json:"root"`
 	Argv    []B          `json:"argv"`
+	Repeat  int          `json:"repeat"`
 
 	// lex / compile / match
 	Spec  B            `json:"spec"`
@@ -481,6 +488,13 @@ func declare(cmd *cli.Cmd, d *declSpec, path string) *varRec {
 		if len(d.Def) > 0 {
 			def = strs(d.Def)
 		}
+		if d.DefShare != "" {
+			if shared, ok := sharedDefs[d.DefShare]; ok {
+				def = shared
+			} else {
+				sharedDefs[d.DefShare] = def
+			}
+		}
 		var p cli.StringsParam
 		if isOpt {
 			p = cli.StringsOpt{Name: name, Desc: desc, EnvVar: env, Value: def, HideValue: d.Hide, SetByUser: sbu}
@@ -743,6 +757,7 @@ func (r *runCtx) configure(cmd *cli.Cmd, c *cmdSpec, path string) {
 // runCase builds and runs one application. stderr may be nil (op conc), in which case no stderr is reported.
 // The IO hooks and the environment must already be in place.
 func runCase(req *request, stderr *bytes.Buffer) *runOut {
+	sharedDefs = map[string][]string{}
 	r := &runCtx{trace: []B{}}
 	out := &runOut{ID: req.ID}
 
@@ -774,6 +789,20 @@ func runCase(req *request, stderr *bytes.Buffer) *runOut {
 		r.configure(app.Cmd, root, rootName)
 
 		argv := append([]string{rootName}, strs(req.Argv)...)
+		// repeat > 1: the same application is run again on the same command line; what is
+		// reported is the last run
+		for i := 1; i < req.Repeat; i++ {
+			func() {
+				defer func() { _ = recover() }()
+				_ = app.Run(argv)
+			}()
+			r.trace = []B{}
+			r.values = nil
+			r.sbu = nil
+			if stderr != nil {
+				stderr.Reset()
+			}
+		}
 		err := app.Run(argv)
 		out.Outcome = "ret"
 		if err != nil {
